@@ -531,6 +531,20 @@ func extraPrograms() []progCase {
 			out = append(out, progCase{Name: fmt.Sprintf("errpath:%s:%d", f, i), Src: "a\n  " + strings.ReplaceAll(shape, "F", f) + "z", Files: files, Ctx: map[string]pongo2.Context{"c1": c}})
 		}
 	}
+	// what one execution leaves behind in the *set* (not in the template) must not reach the next one: programs whose two
+	// contexts take different routes to the same missing / existing file (optional vs strict computed include, in and
+	// outside a loop, through a macro); these run under every sequence of contexts (prefix "hist:")
+	for name, src := range map[string]string{
+		"optinc":      `[{% with n="/nofile" %}{% if bt %}{% include n if_exists %}{% else %}{% include n %}{% endif %}{% endwith %}]`,
+		"optinc-loop": `[{% for n in names %}{% if bt %}{% include n if_exists %}{% else %}{% include n %}{% endif %};{% endfor %}]`,
+		"optinc-two":  `[{% with n="/nofile" %}{% if bt %}{% include n if_exists %}{% endif %}{% include "/inc0" %}{% if not bt %}{% include n %}{% endif %}{% endwith %}]`,
+		"optinc-mac":  `{% macro inc(n, opt) %}{% if opt %}{% include n if_exists %}{% else %}{% include n %}{% endif %}{% endmacro %}[{{ inc("/nofile", bt) }}|{{ inc("/inc0", bt) }}]`,
+	} {
+		c := ctx()
+		c["bt"] = true
+		c["names"] = []interface{}{"/inc0", "/nofile"}
+		out = append(out, progCase{Name: "hist:" + name, Src: src, Files: files, Ctx: map[string]pongo2.Context{"c1": c}})
+	}
 	out = append(out, progCase{Name: "extends", Src: `{% extends "/base0" %}{% block bb %}{% cycle "a" "b" %}{{ block.Super }}{% endblock %}`,
 		Files: files, Ctx: map[string]pongo2.Context{"c1": ctx()}})
 	out = append(out, progCase{Name: "trim", Src: "{% if 1 %}\n\n\n  x  {% endif %}\n\n  {% set a=1 %}\n\ny", Files: files, Ctx: map[string]pongo2.Context{"c1": ctx()}})
@@ -563,6 +577,20 @@ func cmdC04Replay(args []string) {
 		}
 	})
 	sort.Slice(hists, func(i, j int) bool { return fmt.Sprint(hists[i]) < fmt.Sprint(hists[j]) })
+	// one history per distinct sequence of contexts (for the "hist:" programs, which run all of them)
+	var seqHists [][]execHist
+	seenSeq := map[string]bool{}
+	for _, h := range hists {
+		var k strings.Builder
+		for _, st := range h {
+			fmt.Fprintf(&k, "%s/%v;", st.Ctx, st.FailAt != 0)
+		}
+		if !seenSeq[k.String()] {
+			seenSeq[k.String()] = true
+			seqHists = append(seqHists, h)
+		}
+	}
+	rep.Extra["context_sequences"] = len(seqHists)
 	rep.Extra["histories"] = len(hists)
 	rep.Extra["programs"] = len(progs)
 	optCombos := [][2]bool{{false, false}, {true, false}, {false, true}, {true, true}}
@@ -583,8 +611,15 @@ func cmdC04Replay(args []string) {
 			if refOf("c1").Panic != "" || strings.HasPrefix(refOf("c1").Err, "compile:") {
 				continue // not a compilable program under these options; totality is C01's subject
 			}
-			for hi := 0; hi < perProg; hi++ {
+			nh := perProg
+			if strings.HasPrefix(p.Name, "hist:") {
+				nh = len(seqHists)
+			}
+			for hi := 0; hi < nh; hi++ {
 				h := hists[(pi*131+oi*17+hi*7919+seed*104729)%len(hists)]
+				if strings.HasPrefix(p.Name, "hist:") {
+					h = seqHists[hi]
+				}
 				set := pongo2.NewSet("c04", newMemLoader("c04", p.Files))
 				set.Options.TrimBlocks, set.Options.LStripBlocks = opt[0], opt[1]
 				tpl, o := compileString(set, p.Src)
